@@ -1381,7 +1381,14 @@ impl Sim for C16 {
                     namespace: if rng.chance(1, 6) { (*rng.pick(&["a//b", "/a", "a/"])).to_owned() } else { c.namespace.join("/") },
                     name: c.name,
                     version: c.version,
-                    qualifiers: c.qualifiers,
+                    qualifiers: {
+                        let mut q = c.qualifiers;
+                        if rng.chance(1, 5) {
+                            // Empty values are dropped by build(); they must leave no trace.
+                            q.insert(0, ((*rng.pick(&["arch", "a", "zz", "b0"])).to_owned(), String::new()));
+                        }
+                        q
+                    },
                     subpath: if rng.chance(1, 6) { (*rng.pick(&["a/./b", "../a", "a//b"])).to_owned() } else { c.subpath.join("/") },
                     drop_qualifier: if rng.chance(1, 4) { Some(rng.below(4)) } else { None },
                 })
